@@ -164,7 +164,7 @@ def _metaclass_of(t):
     (k,) = get_args(t) or (object,)
     mc = type(k)
     if (
-        isinstance(k, type)
+        (isinstance(k, type) or get_origin(k) is not None)
         and not hasattr(mc, "__type_order__")
         and not hasattr(mc, "__is_supertype__")
         and not hasattr(mc, "__is_subtype__")
@@ -220,7 +220,12 @@ def _subclasscheck(t1, t2):
     if o1 or o2:
         o1 = o1 or t1
         o2 = o2 or t2
-        if issubclass(o1, o2):
+        try:
+            below = issubclass(o1, o2)
+        except TypeError:
+            # Not classes: the ... of tuple[int, ...], a string, ...
+            return False
+        if below:
             if o2 is t2:  # pragma: no cover
                 return True
             else:
